@@ -94,7 +94,7 @@ let parse toks : op * int =
 let le_op toks =
   let name = List.hd toks in
   match name with
-  | "con" | "gen" | "cg" | "sys" -> ()      (* C++-only observations (classes built on Linear_Expression) *)
+  | "con" | "gen" | "cg" | "sys" | "sysop" -> ()      (* C++-only observations (classes built on Linear_Expression) *)
   | _ ->
     let (o, r) = parse toks in
     for w = 0 to nworlds - 1 do
